@@ -174,8 +174,9 @@ def build(cfg, start, prods, smart):
     return "ok", p
 
 
-def parse(parser, cfg, toks, bound=None, step_budget=STEP_BUDGET):
-    """Real parse of the text made of ``toks`` under the monitor.
+def parse(parser, cfg, toks, bound=None, step_budget=STEP_BUDGET, start_symbol=None):
+    """Real parse of the text made of ``toks`` under the monitor; ``start_symbol`` is handed over as the
+    public ``start_symbol_name`` argument of parse (None: the constructor's start symbol).
     -> (kind, payload): ("tree", root) | ("ParsingError", None) | ("LexicalError", None) |
        ("abort:<why>", None) | ("raised:<Type>", repr)"""
     global _ACTIVE
@@ -184,7 +185,10 @@ def parse(parser, cfg, toks, bound=None, step_budget=STEP_BUDGET):
     MON.reset(depth_bound(parser, len(toks)) if bound is None else bound, step_budget, suffix)
     _ACTIVE = True
     try:
-        root = parser.parse(cfg.text(toks), do_cleanup=False)
+        if start_symbol is None:
+            root = parser.parse(cfg.text(toks), do_cleanup=False)
+        else:
+            root = parser.parse(cfg.text(toks), do_cleanup=False, start_symbol_name=start_symbol)
     except impl.ParsingError:
         return "ParsingError", None
     except impl.LexicalError:
